@@ -217,38 +217,38 @@ func (b *file) Close() error {
 type dir struct {
 	pb       *pb.Directory
 	children map[digest.Digest]*pb.Directory
+	// offset is the number of entries that previous calls to ReadDir have returned
+	offset int
 	*info
 }
 
 // ReadDir implements listing the contents of a directory stored in the CAS. This is entirely based off the original
 // data from the Tree proto so doesn't do any additional fetching.
 func (p *dir) ReadDir(n int) ([]iofs.DirEntry, error) {
-	dirSize := n
-	if n <= 0 {
-		dirSize = len(p.pb.Files) + len(p.pb.Symlinks) + len(p.pb.Files)
-	}
-	ret := make([]iofs.DirEntry, 0, dirSize)
+	entries := make([]iofs.DirEntry, 0, len(p.pb.Directories)+len(p.pb.Files)+len(p.pb.Symlinks))
 	for _, dirNode := range p.pb.Directories {
-		if n > 0 && len(ret) == n {
-			return ret, nil
-		}
 		dir := p.children[digest.NewFromProtoUnvalidated(dirNode.Digest)]
-		ret = append(ret, newDirInfo(dirNode.Name, dir))
+		entries = append(entries, newDirInfo(dirNode.Name, dir))
 	}
 	for _, file := range p.pb.Files {
-		if n > 0 && len(ret) == n {
-			return ret, nil
-		}
-
-		ret = append(ret, newFileInfo(file))
+		entries = append(entries, newFileInfo(file))
 	}
 	for _, link := range p.pb.Symlinks {
-		if n > 0 && len(ret) == n {
-			return ret, nil
-		}
-		ret = append(ret, newSymlinkInfo(link))
+		entries = append(entries, newSymlinkInfo(link))
 	}
-	return ret, nil
+
+	// Successive calls carry on from where the last one finished, as per iofs.ReadDirFile.
+	entries = entries[p.offset:]
+	if n > 0 {
+		if len(entries) == 0 {
+			return nil, io.EOF
+		}
+		if len(entries) > n {
+			entries = entries[:n]
+		}
+	}
+	p.offset += len(entries)
+	return entries, nil
 }
 
 func (p *dir) Stat() (iofs.FileInfo, error) {
